@@ -12,7 +12,22 @@
 From Coq Require Import QArith Qround ZArith List.
 Import ListNotations.
 Require Import Plinio.Base.Qx Plinio.Base.Expr Plinio.Model.CostFns Plinio.Proofs.CostFns.
+(* the generated instances belong to this property: requiring them puts Gen/CostGen.vo into the closure that
+   `coqchk` re-checks in the thorough tier (nothing of it is imported: the statements below stay generic) *)
+Require Plinio.Gen.CostGen.
 Open Scope Q_scope.
+
+(* Which size arguments each model's monotonicity covers (all for ALL non-negative rationals):
+   - params, params_no_bias, params_bit, ops, ops_no_bias, ops_bit, gap8_latency, mpic_latency, mpic_energy
+     (generated, <f>_mono_nonneg): EVERY argument the function reads, jointly and one at a time
+     (C16_expr_mono_var): cin, cout, kernel_size[0], kernel_size[1], output_shape[2], output_shape[3],
+     w_precision, in_precision (MPIC: as a step function on its table), bias flag, groups.
+   - NE16 conv2d generic: cin, cout, output_shape[2], output_shape[3], w_precision, kernel 1x1 -> 3x3 (its only
+     two kernels; needs w_precision >= 1) — C16_ne16_conv2d_generic_mono_kernel; theta, in_precision fixed.
+   - NE16 conv2d depthwise: cin, cout, output_shape[2], output_shape[3], w_precision; the kernel cannot grow
+     (3x3 is the only accepted one, C16_ne16_dw_kernel_is_3x3).   NE16 linear: cin, cout, w_precision.
+   - DIANA conv2d (analog and digital): cin, cout, kernel_size[0], kernel_size[1], output_shape[2],
+     output_shape[3]; precisions and groups select the accelerator and are fixed.  DIANA linear: cin, cout. *)
 
 (* ---- reflection: any translated cost function, all rational (also fractional / relaxed) arguments *)
 Theorem C16_expr_mono_nonneg : forall e, okb e = true ->
@@ -22,6 +37,12 @@ Proof. exact expr_mono_nonneg. Qed.
 Theorem C16_expr_positive : forall lo e, posb lo e = true ->
   forall r r', (forall i, lo i <= r i) -> (forall i, r i <= r' i) -> 0 < eval r e /\ eval r e <= eval r' e.
 Proof. exact expr_pos. Qed.
+
+(* one argument grows, all the others stay *)
+Theorem C16_expr_mono_var : forall e, okb e = true ->
+  forall r i v v', (forall j, 0 <= r j) -> 0 <= v -> v <= v' ->
+  0 <= eval (upd r i v) e /\ eval (upd r i v) e <= eval (upd r i v') e.
+Proof. exact expr_mono_var. Qed.
 
 (* the analysis behind both: a lower bound on {r | lo <= r} that exists only on the monotone fragment *)
 Theorem C16_lbq_sound : forall lo e l, lbq lo e = Some l ->
@@ -83,6 +104,27 @@ Theorem C16_ne16_conv2d_generic_mono : forall r r' c c', ne16_le r r' -> same_ke
   ne16_conv2d_generic r = Some c -> ne16_conv2d_generic r' = Some c' -> 0 <= c /\ c <= c'.
 Proof. exact ne16_conv2d_generic_mono. Qed.
 
+(* kernel growth: a 3x3 job is never cheaper than the 1x1 job of a layer that is no larger (weights >= 1 bit) *)
+Theorem C16_ne16_latency_kernel_mono : forall wb wb' H H' W W' Ko Ko' Ki Ki',
+  0 <= wb -> 1 <= wb' -> 0 <= H -> H <= H' -> 0 <= W -> W <= W' -> 0 <= Ko -> Ko <= Ko' -> 0 <= Ki -> Ki <= Ki' ->
+  0 <= ne16_lat K1x1 wb H W Ko Ki /\ ne16_lat K1x1 wb H W Ko Ki <= ne16_lat K3x3 wb' H' W' Ko' Ki'.
+Proof. exact ne16_lat_kernel. Qed.
+
+(* the dense registered function with EVERY size argument growing at once: cin, cout, both output entries,
+   weight bits, and the kernel staying or growing 1x1 -> 3x3 *)
+Theorem C16_ne16_conv2d_generic_mono_kernel : forall r r' c c', ne16_le r r' -> ne16_kernel_le r r' -> out_le r r' ->
+  ne16_conv2d_generic r = Some c -> ne16_conv2d_generic r' = Some c' -> 0 <= c /\ c <= c'.
+Proof. exact ne16_conv2d_generic_mono_kernel. Qed.
+
+(* accepted kernels of non-pruned layers: dense {3x3, 1x1}, depthwise {3x3} *)
+Theorem C16_ne16_generic_kernel_domain : forall r c, ~ r V_wp == 0 -> ~ r V_theta == 0 ->
+  ne16_conv2d_generic r = Some c -> kernel_3x3_or_1x1 r.
+Proof. exact ne16_conv2d_generic_kernel_domain. Qed.
+
+Theorem C16_ne16_dw_kernel_is_3x3 : forall r c, ~ r V_wp == 0 -> ~ r V_theta == 0 ->
+  ne16_conv2d_dw r = Some c -> r V_k0 == 3 /\ r V_k1 == 3.
+Proof. exact ne16_conv2d_dw_kernel_is_3x3. Qed.
+
 Theorem C16_ne16_conv2d_dw_mono : forall r r' c c', ne16_le r r' -> same_kernel r r' -> out_le r r' ->
   ne16_conv2d_dw r = Some c -> ne16_conv2d_dw r' = Some c' -> 0 <= c /\ c <= c'.
 Proof. exact ne16_conv2d_dw_mono. Qed.
@@ -116,6 +158,12 @@ Example C16_ne16_instance :
   ne16_conv2d_generic (env_of [8; 16; 3; 3; 5; 7; 8; 4; 1; 1; 1]) = None /\
   ne16_le (env_of [8; 16; 3; 3; 5; 7; 4; 8; 1; 1; 1 # 2]) (env_of [9; 33; 3; 3; 5; 7; 8; 8; 1; 1; 1 # 2]).
 Proof. repeat split; vm_compute; try reflexivity; try discriminate. Qed.
+
+Example C16_ne16_kernel_instance :   (* 1x1 -> 3x3 with a larger output: 522 cycles vs 1266 cycles *)
+  ne16_kernel_le (env_of [8; 16; 1; 1; 5; 7; 8; 8; 1; 1; 1]) (env_of [8; 16; 3; 3; 6; 7; 8; 8; 1; 1; 1]) /\
+  show (ne16_conv2d_generic (env_of [8; 16; 1; 1; 5; 7; 8; 8; 1; 1; 1])) = Some (522, 1)%Z /\
+  show (ne16_conv2d_generic (env_of [8; 16; 3; 3; 6; 7; 8; 8; 1; 1; 1])) = Some (1266, 1)%Z.
+Proof. split; [right; repeat split; vm_compute; try reflexivity; discriminate|split; vm_compute; reflexivity]. Qed.
 
 (* ---- DIANA *)
 Theorem C16_diana_unroll_antitone : forall ce ce' ci ci' kx kx' ky ky',
@@ -151,6 +199,7 @@ Proof. repeat split; vm_compute; reflexivity. Qed.
 
 Print Assumptions C16_expr_mono_nonneg.
 Print Assumptions C16_expr_positive.
+Print Assumptions C16_expr_mono_var.
 Print Assumptions C16_lbq_sound.
 Print Assumptions C16_lut_mono.
 Print Assumptions C16_floor_ste_exact.
@@ -163,6 +212,10 @@ Print Assumptions C16_ne16_tiling_mono.
 Print Assumptions C16_ne16_latency_mono.
 Print Assumptions C16_ne16_latency_pos.
 Print Assumptions C16_ne16_conv2d_generic_mono.
+Print Assumptions C16_ne16_latency_kernel_mono.
+Print Assumptions C16_ne16_conv2d_generic_mono_kernel.
+Print Assumptions C16_ne16_generic_kernel_domain.
+Print Assumptions C16_ne16_dw_kernel_is_3x3.
 Print Assumptions C16_ne16_conv2d_dw_mono.
 Print Assumptions C16_ne16_linear_mono.
 Print Assumptions C16_ne16_conv2d_generic_pos.
